@@ -53,6 +53,10 @@ type runLevelCase struct {
 	RouterFirst bool
 	// Again: number of earlier runs on the same UDPv4 / TCPv4 object (see runRunLevel)
 	Again int
+	// SlowLast (parallel engines): the answer to the LAST probe of the run takes almost the whole
+	// listening time (time-out minus less than one send delay): it arrives within the time-out of its
+	// own probe and must be reported like the answers to the earlier probes.
+	SlowLast bool
 }
 
 type runLevelOutcome struct {
@@ -147,6 +151,9 @@ func runRunLevel(t *testing.T, c runLevelCase) runLevelOutcome {
 				}
 				pkt := f.encode(fl, p, from, ttl, seqOfProbe(p))
 				d := time.Duration(r.Range(1, 40))*time.Millisecond + time.Duration(r.Range(1, 999))*time.Microsecond
+				if c.SlowLast && ttl == c.Max && kind != "tcp" {
+					d = 300*time.Millisecond - time.Duration(r.Range(100, 4900))*time.Microsecond // time-out 300 ms, send delay 5 ms
+				}
 				if c.RouterFirst && ttl == c.DestHop && kind != "tcp" {
 					var tes []replyForm
 					for _, g := range forms {
@@ -273,6 +280,15 @@ func genRunLevel(r *hx.RNG) runLevelCase {
 	if r.Chance(1, 4) {
 		c.Again = r.Range(1, 2)
 	}
+	if c.Proto != "tcp" && c.Proto != "tcp-paris" && r.Chance(1, 5) {
+		c.SlowLast, c.FastReply = true, false
+		if r.Chance(1, 3) {
+			c.Min = c.Max // an end-to-end style run: one probe
+			c.Silent = map[int]bool{}
+		}
+		delete(c.Silent, c.Max)
+		c.DestHop = r.Range(c.Max, c.Max+2)
+	}
 	return c
 }
 
@@ -330,10 +346,13 @@ func runLevelStream(t *testing.T, rep *hx.Report, rng *hx.RNG, n int) {
 		got := hopsString(o.Hops)
 		key := fmt.Sprintf("%s|%v|%s|%d|%d|%d|%v|%d", c.Proto, c.V6, c.Target, c.Min, c.Max, c.DestHop, c.Silent, c.Seed)
 		replay := map[string]any{"protocol": c.Proto, "target": c.Target.String(), "port": c.Port, "min": c.Min, "max": c.Max,
-			"dest_hop": c.DestHop, "silent": fmt.Sprint(c.Silent), "noise_per_probe": c.Noise, "script_seed": c.Seed, "fast_replies": c.FastReply,
+			"dest_hop": c.DestHop, "silent": fmt.Sprint(c.Silent), "noise_per_probe": c.Noise, "script_seed": c.Seed, "fast_replies": c.FastReply, "last_probe_answered_just_before_its_timeout": c.SlowLast,
 			"expected_hops": want, "reported_hops": got, "error": fmt.Sprint(o.Err)}
 		rep.Case("run/"+c.Proto, key, true, replay)
 		rep.Hit(fmt.Sprintf("run:%s:v6=%v", c.Proto, c.V6))
+		if c.SlowLast {
+			rep.Hit("run:" + c.Proto + ":slow-answer-to-the-last-probe")
+		}
 		if c.FastReply {
 			rep.Hit("run:" + c.Proto + ":reply-during-write")
 		}
